@@ -1970,7 +1970,14 @@ result_t MessageMap::add(bool storeByName, Message* message, bool replace) {
   if (idLength > m_maxIdLength) {
     m_maxIdLength = idLength;
   }
-  m_messagesByKey[key].push_back(message);
+  // keep messages with a longer ID (i.e. chained ones) in front, so that the longest matching ID is found first
+  // independent of the order in which the messages were added
+  vector<Message*>& keyMessages = m_messagesByKey[key];
+  auto insertPos = keyMessages.begin();
+  while (insertPos != keyMessages.end() && (*insertPos)->getIdLength() >= idLength) {
+    insertPos++;
+  }
+  keyMessages.insert(insertPos, message);
   return RESULT_OK;
 }
 
